@@ -217,14 +217,15 @@ impl Dictionary {
     {
         if let Some(user_lexicon_rdr) = user_lexicon_rdr {
             let mut user_lexicon = Lexicon::from_reader(user_lexicon_rdr, LexType::User)?;
-            if let Some(mapper) = self.data.mapper.as_ref() {
-                user_lexicon.map_connection_ids(mapper);
-            }
+            // The ids must be checked before they are used as indices of the stored mapper.
             if !user_lexicon.verify(self.connector()) {
                 return Err(VibratoError::invalid_argument(
                     "user_lexicon_rdr",
                     "includes invalid connection ids.",
                 ));
+            }
+            if let Some(mapper) = self.data.mapper.as_ref() {
+                user_lexicon.map_connection_ids(mapper);
             }
             self.data.user_lexicon = Some(user_lexicon);
         } else {
